@@ -19,7 +19,7 @@ RunCands(e) == LET dn == (e.t - alg[Own(e.obj)].t) \div 2 IN {IF dn < 1 THEN 1 E
 
 DriverEvent(e) ==
   \/ /\ e.call = "simulate_begin" /\ e.obj = DriverObj /\ DBegin
-  \/ /\ e.call = "setup"        /\ e.obj = DriverObj /\ DSetup(e.cfg) /\ Common(e) /\ Seen(e)
+  \/ /\ e.call = "setup"        /\ e.obj = DriverObj /\ e.cfg.kind \in {"fixed", "gill"} /\ DSetup(e.cfg) /\ Common(e) /\ Seen(e)
   \/ /\ e.call = "run"          /\ e.obj = DriverObj /\ DRunJ(RunCands(e)) /\ Common(e) /\ Seen(e) /\ obs'.ret = e.ret
   \/ /\ e.call = "get_progress" /\ e.obj = DriverObj /\ DProgress /\ Common(e) /\ Seen(e) /\ obs'.pnum = e.pnum
   \/ /\ e.call = "get_output"   /\ e.obj = DriverObj /\ DFetch /\ Common(e) /\ Seen(e)
@@ -30,7 +30,7 @@ DriverEvent(e) ==
 (* ordinary calls between driver invocations (same clauses as Trace_Engine) *)
 PlainEvent(e) ==
   /\ pc = "idle" /\ UNCHANGED <<pc, out, ncalls>>
-  /\ \/ /\ e.call = "setup"       /\ Setup(e.obj, e.cfg) /\ Common(e) /\ Seen(e)
+  /\ \/ /\ e.call = "setup"       /\ e.cfg.kind \in {"fixed", "gill"} /\ Setup(e.obj, e.cfg) /\ Common(e) /\ Seen(e)
      \/ /\ e.call = "iterate"     /\ Iterate(e.obj) /\ Common(e) /\ Seen(e) /\ obs'.ret = e.ret
      \/ /\ e.call = "iterate_n"   /\ IterateN(e.obj, e.k) /\ Common(e) /\ Seen(e) /\ obs'.ret = e.ret
      \/ /\ e.call = "sample"      /\ SampleCall(e.obj) /\ Common(e) /\ Seen(e)
